@@ -67,23 +67,47 @@ func (*c13) Oracle(ci, oi any) []hx.Violation {
 		}
 	}
 	n := 0 // revisions stored so far
+	var before []string // statuses of the stored revisions before the step
 	for i, o := range c.Ops {
 		if i >= len(obs.Steps) {
 			break
 		}
 		st := obs.Steps[i]
-		// st.ValsMutated is recorded but not judged: with reuse-values / reset-then-reuse-values
-		// the action overlays the deployed values INTO the map it was given (CoalesceTables
-		// writes into its destination); the property says nothing about that map.
-		if !st.OK {
-			continue
+		prev := before
+		before = st.Statuses
+		// st.ValsMutated is recorded but not judged here (C04 judges the caller's map).
+		if len(st.Statuses) == n {
+			continue // nothing was stored by this step
 		}
-		cur := rev(n)
+		if len(st.Statuses) != n+1 {
+			add("revision-count", fmt.Sprintf("step %d (%s) changed the number of stored revisions from %d to %d", i, o.Kind, n, len(st.Statuses)))
+			break
+		}
+		// the revision values are carried forward from: the highest revision that had status
+		// deployed before the step; only when there is none, the newest one
+		base := 0
+		for v := len(prev); v >= 1; v-- {
+			if prev[v-1] == "deployed" {
+				base = v
+				break
+			}
+		}
+		if base == 0 {
+			base = len(prev)
+		}
+		cur := rev(base)
 		n++
 		nw := rev(n)
 		if nw == nil {
-			add("revision-missing", fmt.Sprintf("step %d (%s) succeeded but revision %d is not stored", i, o.Kind, n))
+			add("revision-missing", fmt.Sprintf("step %d (%s) stored revision %d but it is not in the history", i, o.Kind, n))
 			break
+		}
+		wantStatus := "deployed"
+		if !st.OK {
+			wantStatus = "failed"
+		}
+		if st.Statuses[n-1] != wantStatus {
+			add("new-revision-status", fmt.Sprintf("step %d (%s, ok=%v) stored revision %d with status %s", i, o.Kind, st.OK, n, st.Statuses[n-1]))
 		}
 		newv := o.Vals
 		if newv == nil {
@@ -100,6 +124,7 @@ func (*c13) Oracle(ci, oi any) []hx.Violation {
 			if tv == 0 {
 				tv = n - 2
 			}
+			_ = cur
 			t := rev(tv)
 			if t == nil {
 				add("rollback-target", fmt.Sprintf("step %d: rollback to %d succeeded but that revision does not exist", i, tv))
